@@ -24,14 +24,17 @@ def parser_jobs(prop, tier, wd, tags):
     plan += [('harness_match', '*'), ('harness_expected_end', '*'), ('harness_parse_top', '*')]
     for e, first in plan:
         fk = [] if first == '*' else ['PB_FIRST_KIND=%d' % (parseb.TOKENS.index(first) if first else -1)]
-        dd = [x.replace('MINISTL_STR_CAP=12', 'MINISTL_STR_CAP=16') for x in defines] if e == 'harness_parse_top' else defines      # the key __standards__ has 13 characters
+        dd = defines
+        if e == 'harness_parse_top':      # the key __standards__ has 13 characters; the top-level loop reads one token per round, a shorter window keeps the quick query short
+            wt = 4 if tier == 'quick' else w
+            dd = [x.replace('MINISTL_STR_CAP=12', 'MINISTL_STR_CAP=16').replace('PB_W=%d' % w, 'PB_W=%d' % wt) for x in defines]
         nm = e.replace('harness_', '')
         jobs.append(fw.Job('parse.%s.%s' % (nm, first if first not in (None, '*') else ('other' if first is None else 'any')), H, e, tus=['Compiler/src/ast.cpp'], defines=dd + fk, caps='caps_parse.hpp', unwind=w + 2,
                            unwindset={'_ZL10select_rowii.0': info['rows'] + 1}, tags=tags, stubs=STUBS, native=False, extra=['--object-bits', '12'] + (['--memory-leak-check'] if 'C02' in tags else []),
                            ub_pat=r'^(_Z\d|_ZN10ParseState|_ZN4Theo|_ZNSt|_ZNKSt|_ZSt)\S*\.(assertion|pointer_dereference|array_bounds)|memory-leak' if 'C02' in tags else None,
                            timeout=600 if tier == 'quick' else 1500,
                            what='real %s of parse.cpp entered on %s, every callee replaced by its contract stub, symbolic window of <= %d tokens: SOUND / COMPLETE against the LL(1) row selected by the lookahead, SAFE (cursor, progress, nullness)' % (nm, ('token ' + first) if first not in (None, '*') else ('any token outside its FIRST set' if first is None else 'any token'), w),
-                           bounds='token window <= %d tokens (the function under test reads nothing outside it); token streams of any length; unwind %d' % (w, w + 2),
+                           bounds=('expanded sequence of <= %d tokens (top-level recovery loop: bounded, unwinding assertion); unwind %d' % (wt, w + 2)) if e == 'harness_parse_top' else 'token window <= %d tokens (the function under test reads nothing outside it); token streams of any length; unwind %d' % (w, w + 2),
                            functions=['parse.cpp:' + nm.replace('expected_end', 'expected_end_or_semicolon').replace('match', 'ParseState::match')],
                            build_key=('parse', tuple(fk), e == 'harness_parse_top')))
     return jobs, info
